@@ -39,6 +39,18 @@ CHECKS = {
         'validated by the injection runs; the numerical state after a cpl restore is not modelled; backtracking into the domain is '
         'observed on domain-restricted F, not proved.',
    technique='Lean 4 proof (decide over a source-generated site table + induction over failure sequences) with fault-injection correspondence'),
+ 'C06': dict(
+   category='proof',
+   text='(1) The kktsolver-name dispatch of conelp/coneqp/cpl/cp and the pass-through of the wrappers are regenerated from the source '
+        'into Lean; theorem for every argument value (all strings): a name either selects an existing built-in factory with a compatible '
+        'arity or is rejected with ValueError, never called as a user solver. (2) Lean theorems over ordered fields that each '
+        'presentation map of the property (objective scaling, variable reparametrisation, row permutation, q1/s1 re-encoding, block '
+        'stacking) preserves optimal points/values for problems of every size. The generated dispatch is compared with the real entry '
+        'points exhaustively over a name list, and metamorphic pairs of planted problems are solved by the real code.',
+   design_ref='DESIGN.md 5 C06',
+   note='Trusted: Lean kernel, translator py2lean.gen_dispatch, harness. Agreement of two numerical solver paths to tolerance is '
+        'observed, not proved (rounding). Two known findings (kkt_chol2 with rank-deficient G; rare ldl2 breakdowns) are listed.',
+   technique='Lean 4 proof over a source-generated dispatch model + proved presentation lemmas, with metamorphic solver runs'),
 }
 REASONS = {}
 def main():
